@@ -100,9 +100,56 @@ def _check_borders(n, edges, sizes, prim):
     return None
 
 
+def _check_borders_frame(H, W):
+    """The 2-D entry: group_size an IntArray2D of variables, is_border a BoolInnerGridFrame (horizontal (H-1) x W borders
+    between vertically adjacent cells first, then vertical H x (W-1) borders).  For every border pattern: with every cell's size
+    fixed to the size of its block after cutting the borders the constraints must be satisfiable exactly when no border lies
+    inside a block; with one size off by one they must be unsatisfiable."""
+    from cspuz import graph as G
+    from cspuz.grid_frame import BoolInnerGridFrame
+    n = H * W
+    cell_edges = [((y, x), (y + 1, x)) for y in range(H - 1) for x in range(W)] + [((y, x), (y, x + 1)) for y in range(H) for x in range(W - 1)]
+    edges = [(a[0] * W + a[1], b[0] * W + b[1]) for a, b in cell_edges]
+    m = len(edges)
+
+    def builder(s):
+        gs = s.int_array((H, W), 1, max(1, n))
+        fr = BoolInnerGridFrame(s, H, W)
+        return lambda: G.division_connected_variable_groups_with_borders(s, group_size=gs, is_border=fr, use_graph_primitive=False)
+    decls, cs, base, _ = graphs.real_program(builder)
+    for bd in graphs.all_patterns(m):
+        comp = cut_blocks(n, edges, bd)
+        size = [sum(1 for w in range(n) if comp[w] == comp[v]) for v in range(n)]
+        ok_borders = all(not (bd[k] and comp[u] == comp[v]) for k, (u, v) in enumerate(edges))
+        for delta in (0, 1):
+            sz = list(size)
+            if delta:
+                sz[0] = sz[0] % max(1, n) + 1
+            fixed = {f"i{v}": sz[v] for v in range(n)}
+            fixed.update({f"b{n + k}": bd[k] for k in range(m)})
+            got = exprio.solve_prog(decls, cs, base, fixed) is not None
+            want = ok_borders and sz == size
+            if got != want:
+                return list(bd), sz, got, want
+    return None
+
+
 def search(ctx, why, budget=None):
     rng = ctx.rng
     found = {}
+    for (H, W) in ((1, 1), (1, 2), (2, 1), (1, 3), (3, 1), (2, 2), (2, 3)):
+        if "borders:frame" in found:
+            break
+        try:
+            bad = _check_borders_frame(H, W)
+        except Exception as e:
+            bad = ("exception", core.err_name(e), str(e)[:200], None)
+        ctx.count("search:borders:frame")
+        if bad:
+            found["borders:frame"] = Finding(
+                "borders:frame", f"division_connected_variable_groups_with_borders(group_size=IntArray2D, is_border=BoolInnerGridFrame) on a "
+                f"{H}x{W} board, borders={bad[0]}, sizes={bad[1]}: satisfiable={bad[2]} expected {bad[3]}",
+                {"fn": "frame", "H": H, "W": W, "borders": bad[0], "sizes": bad[1]})
     for (n, edges) in graphs.small_graphs(rng, budget or ctx.n(12, 30), 4):
         if n > 4 or len(edges) > 6:
             continue
@@ -138,6 +185,9 @@ def search(ctx, why, budget=None):
 
 
 def replay(ctx, data):
+    if data.get("fn") == "frame":
+        bad = _check_borders_frame(data["H"], data["W"])
+        return Finding("c07:replay", f"still fails: {bad}", data) if bad else None
     edges = [tuple(e) for e in data["edges"]]
     if data.get("fn") == "groups":
         bad = _check_groups(data["n"], edges, data["kind"], data["sizes"])
